@@ -98,7 +98,7 @@ func xzCost(m, o uint32) uint64 {
 // checkOSAP is the brute-force oracle of C11: the cost of the emitted block
 // equals the optimum over all valid parses of the block.
 func (e *pExec) checkOSAP(site string, n int) {
-	if int64(n)*int64(e.cpos+n-e.off) > 20_000_000 {
+	if int64(n)*int64(e.cpos+n-e.off) > 20_000_000 && n > 64 {
 		e.cnt.inc("osap.skipped.large") // the brute-force optimum is quadratic
 		return
 	}
